@@ -29,6 +29,7 @@ fn main() {
         "overflow" => engine_overflow(&args),
         #[cfg(feature = "full")]
         "serde" => engine_serde(&args),
+        "ovrace" => overflow::race_child(args.u64("entry", 0) as usize, args.u64("phase", 9) as u8),
         "ovchild" => overflow::child(args.u64("entry", 0) as usize, args.u64("start", 1) as usize),
         "allocchild" => {
             faults::alloc_child(args.u64("site", 0) as usize, args.u64("nth", 1) as i64)
@@ -729,6 +730,16 @@ fn engine_overflow(args: &Args) -> i32 {
                 return 3;
             }
             emit_violation(&v, "overflow", seed, &format!("entry={}", entry), &[]);
+            nviol += 1;
+        }
+    }
+    for entry in 0..overflow::RACE_ENTRIES.len() {
+        if let Err(v) = overflow::race_parent(entry, &mut st) {
+            if v.oracle == "harness" {
+                eprintln!("harness problem: {}", v.msg);
+                return 3;
+            }
+            emit_violation(&v, "overflow", seed, &format!("race entry={}", entry), &[]);
             nviol += 1;
         }
     }
